@@ -351,6 +351,13 @@ def run(ctx):
         step = e[0] in ("bin", "checked") and e[1] in ("Add", "Sub") and e[3] == ("const", 1) and "history.index" in expr_str(e[2])
         clamp = e[0] == "call" and any(str(e[1]).endswith(x) for x in ("saturating_sub", "saturating_add", "::min", "::max"))
         g = index_guards(b)
+        # `if let Some(p) = history.index.checked_sub(1) { history.index = p }`: the checked step is its own guard
+        full = kit.strip_refs(hk.rvalue_expr(s["r"], 12))
+        if full[0] == "field" and str(full[2]) == "0" and full[1][0] == "downcast" and full[1][2] == "Some":
+            cs = kit.strip_refs(full[1][1])
+            if cs[0] == "call" and re.search(r"<impl usize>::checked_(sub|add)$", str(cs[1])) and len(cs[2]) == 2 and cs[2][1] == ("const", 1) \
+                    and "history.index" in expr_str(cs[2][0], 200):
+                clamp = True
         ok = (step and bool(g)) or clamp
         ctx.oblig(ok, {"history.index :=": expr_str(e, 60), "guards": [expr_str(c, 60) for c, v in g]}, "step guarded by a comparison on history.index (or clamped)")
         if not ok:
